@@ -60,6 +60,8 @@ static inline void install_handlers() {
     sigaction(SIGSEGV, &sa, nullptr);
     sigaction(SIGBUS, &sa, nullptr);
     sigaction(SIGILL, &sa, nullptr);
+    sigaction(SIGABRT, &sa, nullptr);   // abort() from the C library (e.g. an invalid free)
+    sigaction(SIGALRM, &sa, nullptr);   // watchdog: a call that does not return
 }
 
 static inline const char* signame(int s) {
@@ -69,6 +71,8 @@ static inline const char* signame(int s) {
         case SIGSEGV: return "SEGV";
         case SIGBUS: return "BUS";
         case SIGILL: return "ILL";
+        case SIGABRT: return "ABRT";
+        case SIGALRM: return "ALRM";
         default: return "OTHER";
     }
 }
